@@ -2,7 +2,7 @@
    subsystem), theorems only.  Model: C06/Model.v ([step true] = the code with fixes/F06.patch,
    [step false] = the original code).  Each theorem is closed by a lemma of Proofs / Order / Limits /
    InOrder / Exact / Refute and followed by Print Assumptions. *)
-From CF Require Import Common.Bytes C06.Model C06.Proofs C06.Order C06.Limits C06.InOrder C06.Exact C06.Refute C06.DeckModel C06.DeckProofs C06.DeckRefute.
+From CF Require Import Common.Bytes C06.Model C06.Proofs C06.Order C06.Limits C06.InOrder C06.Exact C06.Refute C06.DeckModel C06.DeckProofs C06.DeckRefute C06.InfoModel C06.InfoProofs C06.InfoEnum C06.InfoRefute.
 Open Scope Z_scope.
 
 (* ---------------------------------------------------------------- protocol limits *)
@@ -22,7 +22,7 @@ Theorem C06_read_in_order_exact : forall plan s1 i a n s2 tr2,
   rd_get i (c_reads (s_cl s1)) = None ->
   (forall k, (s_n s1 <= k)%nat -> plan k = 0) ->
   (forall j x, 0 <= s_mem s1 j x < 256) ->
-  sys_run true plan s1 (SOp (ERead i a n) :: deliver_from (length (s_log s1)) (nchunks n 20)) = (s2, tr2) ->
+  sys_run true plan s1 (SOp (ERead i a n) :: InOrder.deliver_from (length (s_log s1)) (nchunks n 20)) = (s2, tr2) ->
   length (filter is_send tr2) = nchunks n 20 /\
   (exists tr', tr2 = tr' ++ [OReadOk (c_next (s_cl s1)) i a (mread (s_mem s1) i a (Z.to_nat n))]) /\
   Forall (fun o => match o with
@@ -43,7 +43,7 @@ Theorem C06_write_in_order_exact : forall plan s1 i a d fl s2 tr2,
   c_leaked (s_cl s1) = false ->
   write_idle (s_cl s1) i ->
   (forall k, (s_n s1 <= k)%nat -> plan k = 0) ->
-  sys_run true plan s1 (SOp (EWrite i a d fl) :: deliver_from (length (s_log s1)) (nchunks (zlen d) 25)) = (s2, tr2) ->
+  sys_run true plan s1 (SOp (EWrite i a d fl) :: InOrder.deliver_from (length (s_log s1)) (nchunks (zlen d) 25)) = (s2, tr2) ->
   length (filter is_send tr2) = nchunks (zlen d) 25 /\
   (exists tr', tr2 = tr' ++ [OWriteOk (c_next (s_cl s1)) i a]) /\
   Forall (fun o => match o with
@@ -212,3 +212,89 @@ Theorem C06_original_deck_write_misattributed :
   In (inr (DWriteOk 0 8 deckB 8)) (snd (drun true 6 (dm_init, c_init) f06d_history)).
 Proof. exact original_deck_write_misattributed. Qed.
 Print Assumptions C06_original_deck_write_misattributed.
+
+(* ---------------------------------------------------------------- memory enumeration and refresh *)
+(* Model C06/InfoModel.v: Memory.refresh, the info-channel handlers, OWElement.update / new_data and
+   _mem_update_done on top of [step true]; [irun true false false] = the code as it is (commit ae515bf / F02i in).
+   For every history of refresh() calls (with or without failure callback, also while another one is in progress),
+   arbitrary packets on the info channel (late, duplicated, forged), arbitrary events of the read / write layer and
+   link drops: a refresh notification (done or failed) occurs only while a refresh() waits for one, and ends the
+   waiting — no refresh is answered twice, none is answered that was not asked.  (Proved for every flag setting.) *)
+Theorem C06_refresh_notified_at_most_once : forall evs,
+  notif_ok false (snd (irun true false false (info_init, c_init) evs)) = true.
+Proof. exact (refresh_notified_at_most_once true false false). Qed.
+Print Assumptions C06_refresh_notified_at_most_once.
+
+(* A link drop at any point of any history: the enumeration state is the initial one, no request record, lock free —
+   the state differs from a fresh start only by the ghost request counter n ... *)
+Theorem C06_disconnect_resets_session : forall evs,
+  exists n, fst (irun true false false (info_init, c_init) (evs ++ [IEv EDisc])) = (info_init, mkC [] [] false n).
+Proof. exact (disconnect_resets true false false). Qed.
+Print Assumptions C06_disconnect_resets_session.
+
+(* ... so nothing of the earlier session (pending reads, _ow_mems_left_to_update, callbacks, elements) influences
+   what happens afterwards: it is what happens from the initial state. *)
+Theorem C06_session_isolation : forall pre post,
+  exists n, snd (irun true false false (info_init, c_init) (pre ++ IEv EDisc :: post)) =
+            snd (irun true false false (info_init, c_init) (pre ++ [IEv EDisc]))
+            ++ snd (irun true false false (info_init, mkC [] [] false n) post).
+Proof. exact (session_isolation true false false). Qed.
+Print Assumptions C06_session_isolation.
+
+(* F02i's invariant: refresh() leaves no read record and no element behind, whatever the state. *)
+Theorem C06_refresh_drops_every_read : forall sc fcb,
+  c_reads (snd (fst (istep true false false sc (IRefresh fcb)))) = [] /\
+  i_mems (fst (fst (istep true false false sc (IRefresh fcb)))) = [].
+Proof. intros sc fcb. destruct (refresh_drops_every_read false false sc fcb) as (A & B & _). split; assumption. Qed.
+Print Assumptions C06_refresh_drops_every_read.
+
+(* Exact enumeration: a device with any number (<= 255) of memories of any type but 1-wire, any start state in which
+   no 1-wire update of an interrupted enumeration is left over (i_left st = [], i.e. no refresh() was called while the
+   1-wire memories of another one were being read; pending reads, old replies, a half-done enumeration are allowed):
+   refresh() and the in-order delivery of the replies end with exactly one done, and the element list is the
+   device's list (ids 0..n-1, types, sizes, addresses). *)
+Theorem C06_enumeration_in_order : forall plan st c m dev lg n fcb s2 tr2,
+  Forall wf_devmem dev -> (length dev <= 255)%nat ->
+  i_left st = [] ->
+  isys_run true false false plan (mkIS st c m dev lg n)
+           (ISOp (IRefresh fcb) :: InfoEnum.deliver_from (length lg) (S (length dev))) = (s2, tr2) ->
+  i_mems (is_st s2) = expected_mems dev /\
+  i_cb (is_st s2) = false /\ i_fcb (is_st s2) = false /\ i_left (is_st s2) = [] /\
+  (exists tr', tr2 = tr' ++ [IDone] /\ ~ In IDone tr' /\ ~ In IFailed tr').
+Proof. exact enumeration_in_order. Qed.
+Print Assumptions C06_enumeration_in_order.
+
+(* The code before commit ae515bf, refuted on a device [type 0; 1-wire; deck memory]: a read registered after the
+   disconnect clean-up blocks the next session's refresh (never answered); the code as it is completes. *)
+Theorem C06_f02i_refuted_before_fix :
+  count_done (snd (isys_run false false false zero_plan sys3 f02i_history)) = 1%nat /\
+  i_cb (is_st (fst (isys_run false false false zero_plan sys3 f02i_history))) = true /\
+  count_done (snd (isys_run true false false zero_plan sys3 f02i_history)) = 2%nat /\
+  last (snd (isys_run true false false zero_plan sys3 f02i_history)) IRaise = IDone.
+Proof. exact f02i_refuted_before_fix. Qed.
+Print Assumptions C06_f02i_refuted_before_fix.
+
+(* Observations OUTSIDE the property text (it speaks of read / write requests; the library calls refresh() once per
+   connection).  A second refresh() while one is in progress: (1) during the 1-wire update it is never answered
+   although every reply is delivered in order (no read record is left behind); (2) a late details reply of the
+   interrupted enumeration ends it with a partial list. *)
+Theorem C06_overlapping_refresh_observation_never_answered :
+  count_done (snd (isys_run true false false zero_plan sys3 overlap_history_1)) = 0%nat /\
+  i_cb (is_st (fst (isys_run true false false zero_plan sys3 overlap_history_1))) = true /\
+  i_left (is_st (fst (isys_run true false false zero_plan sys3 overlap_history_1))) = [1] /\
+  c_reads (is_cl (fst (isys_run true false false zero_plan sys3 overlap_history_1))) = [].
+Proof. exact overlapping_refresh_observation_never_answered. Qed.
+Print Assumptions C06_overlapping_refresh_observation_never_answered.
+
+Theorem C06_overlapping_refresh_observation_partial_list :
+  last (snd (isys_run true false false zero_plan sys3 overlap_history_2)) IRaise = IDone /\
+  map m_id (i_mems (is_st (fst (isys_run true false false zero_plan sys3 overlap_history_2)))) = [0].
+Proof. exact overlapping_refresh_observation_partial_list. Qed.
+Print Assumptions C06_overlapping_refresh_observation_partial_list.
+
+(* Observation, also outside the text: ONE refresh, the device refuses a 1-wire read.  The read itself is settled (its
+   failure notification, no record left), but nobody ends the element's update: the refresh stays unanswered. *)
+Definition C06_refresh_answered_full : Prop := refresh_answered_when_device_answers.
+Theorem C06_refused_1wire_read_observation : ~ C06_refresh_answered_full.
+Proof. exact refused_1wire_read_observation. Qed.
+Print Assumptions C06_refused_1wire_read_observation.
